@@ -430,7 +430,8 @@ func (d cffDict) setDeltaF16(op dictOp, val []funit.Int16) {
 	res := make([]interface{}, len(val))
 	var prev funit.Int16
 	for i, x := range val {
-		res[i] = int32(x - prev)
+		// the difference of two 16-bit values needs 17 bits
+		res[i] = int32(x) - int32(prev)
 		prev = x
 	}
 	d[op] = res
